@@ -97,6 +97,9 @@ pub fn run(header: &Scenario, src: Source, keep_trace: bool, final_check: bool) 
         w.final_close_and_check();
     }
     let st = disk.st.borrow();
+    if st.stats.multi_block_calls > 0 {
+        w.probes.hit("ASSUMPTION_VIOLATED_multi_block_device_transfer_seen");
+    }
     let mut sc = header.clone();
     sc.ops = ops_done;
     RunResult {
